@@ -632,11 +632,14 @@ def rule_replay(ctx, fx, config):
     # in next_impl: every Ok(Some(ev)) produced inside the inject loop is dominated by the replay observation
     ni = fx.fn("live_events::LiveEvents::next_impl")
     ctx.saw(ni)
-    rb = [b for b, t in ni.calls() if fx.callee(t) == f.npath]
+    from ..rules import lifted, lifted_stmt_blocks
+    LEADT = "live_events::LiveEvents"
+    # (directly, or through a helper of the event source in which the call is unavoidable)
+    rb = lifted(fx, ni, lambda g, b, t: fx.callee(t) == f.npath, same_adt=LEADT)
     ctx.check(len(rb) >= 1, "REPLAY", "C07:REPLAY:next_impl:call", "next_impl calls the replay observation", "next_impl no longer calls observe_budget_for_replay", config, ctx.where(ni))
     # the replayed event: buf[idx].clone() ... returned.  Rule: the block that increments
     # total_replayed_events (the replay path marker) must reach a return only through the replay observation
-    marks = [b for b, i, s_ in ni.stmts() if s_["k"] == "assign" and s_["p"]["pr"] and render(ni.sym_place(s_["p"])) == "self.total_replayed_events"]
+    marks = lifted_stmt_blocks(fx, ni, lambda g, s_: s_["k"] == "assign" and s_["p"]["pr"] and render(g.sym_place(s_["p"])) == "self.total_replayed_events" and g.sym_rvalue(s_["rv"])[0] != "const", same_adt=LEADT)
     okret = [b for b, i, adt, var, fl, ops, s_ in aggregates(ni) if adt.endswith("result::Result") and var == "Ok"]
     ctx.check(bool(marks) and must_pass(ni, marks, rb, to_blocks=okret), "REPLAY", "C07:REPLAY:next_impl:dominates",
               "every replayed event passes observe_budget_for_replay before it is returned",
